@@ -57,13 +57,17 @@ typedef struct Fenced {
     size_t   n;
 } Fenced;
 
+/* The rear guard is large (REAR bytes) so that an overrun of the caller's buffer stays inside
+ * this allocation: the damage is then *observed* through the canary instead of corrupting the
+ * heap and killing the process at some later, unrelated point. */
+#define REAR 70000
 static int fenced_new(Fenced *f, size_t n, uint8_t fill)
 {
-    f->base = (uint8_t *) malloc(n + 2 * FENCE);
+    f->base = (uint8_t *) malloc(FENCE + n + REAR);
     if (f->base == NULL) {
         return -1;
     }
-    memset(f->base, CANARY, n + 2 * FENCE);
+    memset(f->base, CANARY, FENCE + n + REAR);
     f->data = f->base + FENCE;
     f->n    = n;
     memset(f->data, fill, n);
@@ -73,7 +77,12 @@ static int fenced_ok(const Fenced *f)
 {
     size_t i;
     for (i = 0; i < FENCE; i++) {
-        if (f->base[i] != CANARY || f->data[f->n + i] != CANARY) {
+        if (f->base[i] != CANARY) {
+            return 0;
+        }
+    }
+    for (i = 0; i < REAR; i++) {
+        if (f->data[f->n + i] != CANARY) {
             return 0;
         }
     }
